@@ -1,4 +1,5 @@
 import SC.Proofs.SpecIndex
+import SC.Proofs.RIndexAny6
 /-!
 # C11 — IndexAny/LastIndexAny/ContainsAny implement case-insensitive set membership
 -/
@@ -41,6 +42,30 @@ theorem indexAny_first (s cs : Bytes) :
 
 theorem containsAny_iff (s cs : Bytes) : S.containsAny s cs = true ↔ 0 ≤ S.indexAny s cs := by
   simp [S.containsAny]
+
+/-- LastIndexAny is the offset of the last code point of `s` fold-equal to some code point of `chars` -/
+theorem lastIndexAny_last (s cs : Bytes) : A.IsLastBy (A.anyP cs) s (S.lastIndexAny s cs) := A.S_lastIndexAny_lastBy s cs
+
+/-- refinement: the algorithm model of `IndexAny` (single-char path, ASCII bit-set with the K/k/S/s escape hatch guarded
+    by the non-ASCII scan of `s`, per-char strategy, per-haystack-rune strategy) equals the specification for all byte
+    strings, in both packages and for both `NativeIndex` settings — in particular independently of the two length
+    thresholds that select the strategy -/
+theorem indexAny_refines (cfg : A.Cfg) (s chars : Bytes) : A.IndexAny cfg s chars = S.indexAny s chars := A.IndexAny_eq cfg s chars
+theorem lastIndexAny_refines (cfg : A.Cfg) (s chars : Bytes) : A.LastIndexAny cfg s chars = S.lastIndexAny s chars :=
+  A.LastIndexAny_eq cfg s chars
+theorem containsAny_refines (cfg : A.Cfg) (s chars : Bytes) : A.ContainsAny cfg s chars = S.containsAny s chars :=
+  A.ContainsAny_eq cfg s chars
+
+/-- the ASCII bit-set shortcut is sound: whenever `makeASCIISet` accepts, scanning the bytes of `s` against the set finds
+    the first code point of `s` in the folded set of `chars` -/
+theorem asciiSet_sound (s chars : Bytes) (hok : (A.makeASCIISet s chars).2 = true) :
+    A.IsFirstBy (A.anyP chars) s (S.firstAt (fun x => (A.makeASCIISet s chars).1 (x.headD 0)) s 0, 1) :=
+  A.anySet_firstBy s chars hok
+
+/-- fold partners across the ASCII boundary, for haystacks on both sides of the `len(s) > 8` threshold -/
+example : A.IndexAny {} [0x78, 0xE2, 0x84, 0xAA] [0x7A, 0x6B] = 1 ∧
+    A.IndexAny {} [0x78, 0x78, 0x78, 0x78, 0x78, 0x78, 0x78, 0xE2, 0x84, 0xAA] [0x7A, 0x6B] = 7 ∧
+    A.LastIndexAny {pkg := .byt} [0x53, 0x78, 0xC5, 0xBF, 0x78] [0x73, 0x74] = 2 := by decide +kernel
 
 example : S.indexAny [0x78, 0xE2, 0x84, 0xAA] [0x7A, 0x6B] = 1 ∧ S.lastIndexAny [0x53, 0x78, 0xC5, 0xBF, 0x78] [0x73] = 2 ∧
     S.indexAny [0x78, 0x6B] [0xE2, 0x84, 0xAA] = 1 := by decide +kernel
